@@ -174,7 +174,9 @@ func (l *List[T]) UnmarshalJSON(in []byte) error {
 }
 
 func (e *Element[T]) appendable(new *Element[T]) bool {
-	return new != nil && new.ok && e.list != nil // && new.list == nil && new.list != e.list //&& new.next == nil && new.prev == nil
+	// the receiver must be in a list; the new element must be valid
+	// and must not belong to any list (including this one.)
+	return new != nil && new.ok && new.list == nil && e.list != nil
 }
 
 // Append adds the element 'new' after the element 'e', inserting it
